@@ -368,6 +368,38 @@ def g_unionpre(rng):
     return f"unionpre {A.tok()} {B.tok()} {map_tok(ml)} {map_tok(mr)}"
 
 
+def g_mapsx(rng):
+    """Union with ONE map object for both translators / Intersection(BU) with a pre-filled product map (outside the documented
+    contracts: compared with the models of Vata/UnionIsectMaps.lean, no property judged except the in-contract corners)"""
+    A, B, _ = rand_pair(rng)
+    mode = rng.choice(["alias", "alias", "td", "td", "bu"])
+    sa, sb = A.states(), B.states()
+    if mode == "alias":
+        if rng.random() < 0.5 and sa:
+            # state-disjoint operands: the aliased call is then exact (C02_union_same_map_lang)
+            off = max(sa) + 1 + rng.randint(0, 2)
+            B = B.renamed({q: off + i for i, q in enumerate(sb)})
+            sb = B.states()
+        keys = [q for q in sorted(set(sa) | set(sb)) if rng.random() < 0.4]
+        vals = rng.sample(range(0, 14), min(len(keys), 14))
+        return f"mapsx alias {A.tok()} {B.tok()} {map_tok(dict(zip(keys, vals)))}"
+    pairs = [(a, b) for a in sa for b in sb]
+    c = rng.random()
+    if c < 0.25 or not pairs:
+        pm = {}
+    elif c < 0.6:
+        # what an earlier product returns: dense numbers 0..k-1 (pmapOkB), pairs of final states preferred
+        fin = [(a, b) for a in A.finals for b in B.finals]
+        pool = fin if (fin and rng.random() < 0.6) else pairs
+        ks = rng.sample(pool, min(len(pool), rng.randint(1, 3)))
+        pm = {k: i for i, k in enumerate(ks)}
+    else:
+        ks = rng.sample(pairs, min(len(pairs), rng.randint(1, 3)))
+        pm = {k: rng.randint(0, 6) for k in ks}
+    tok = ",".join(f"{a}.{b}>{v}" for (a, b), v in sorted(pm.items())) or "-"
+    return f"mapsx {mode} {A.tok()} {B.tok()} {tok}"
+
+
 def g_uniondisj(rng):
     A, B, _ = rand_pair(rng)
     A, B = make_disjoint(rng, A, B)
@@ -1519,7 +1551,7 @@ GENERATORS = {
     "tah_store": g_tah_store, "tah_hist": g_tah_hist,
     "lts": g_lts,
     "nfah_incl": g_nfah_incl, "nfah_cli": g_nfah_cli, "nfah_ops": g_nfah_ops, "nfah_hist": g_nfah_hist,
-    "incl": g_incl, "inclall": g_inclall, "union": g_union, "unionpre": g_unionpre, "uniondisj": g_uniondisj,
+    "incl": g_incl, "inclall": g_inclall, "union": g_union, "unionpre": g_unionpre, "mapsx": g_mapsx, "uniondisj": g_uniondisj,
     "isect": g_isect, "isectbu": g_isectbu, "trim": g_trim, "cand": g_cand, "reduce": g_reduce, "simdown": g_simdown, "simup": g_simup,
     "compl": g_compl, "rename": g_rename,
 }
